@@ -23,8 +23,8 @@ def tune(plan, tier):
     plan.smoke_scenario = "c22_yield_import"
     plan.plain_pass_in_thorough = False
     if tier == "quick":
-        plan.native_args = ["--depth", "8", "--max-exhaustive", "40000", "--random", "4000"]
-        extra = ["--depth", "8", "--max-exhaustive", "30000", "--random", "3000"]
+        plan.native_args = ["--depth", "8", "--max-exhaustive", "30000", "--random", "3000"]
+        extra = ["--depth", "7", "--max-exhaustive", "15000", "--random", "1500"]
         shards = 4
     else:
         plan.native_args = ["--depth", "11", "--max-exhaustive", "400000", "--random", "120000"]
@@ -40,4 +40,7 @@ def tune(plan, tier):
 
 
 def run(tier, seed, replay):
-    return rthost_check.run("C22", "c22", tier, seed, replay, RULE, tune=tune)
+    rep = rthost_check.run("C22", "c22", tier, seed, replay, RULE, tune=tune)
+    if replay is not None:
+        rthost_check.replay_floor(rep, FLOORS, tier)
+    return rep
